@@ -8,7 +8,8 @@
    the pinned tree, `self.trusted_gateways = None` whatever was passed: TLC
    must find the violation (teeth).  Variant "suffixtrust": the peer is trusted
    when its address text ends with a gateway's (110.0.0.1 passes for 10.0.0.1):
-   TLC must find that too.  A variant is a generator, never an oracle.
+   TLC must find that too.  Variant "nohostfallback": the forwarded host is used
+   whenever the Host header is empty or absent, whatever the peer: likewise.  A variant is a generator, never an oracle.
 
    A peer address is a token sequence <<rpre, remote, rpost>> (VHostOps), so
    that the table contains peers whose text has a gateway's address as proper
@@ -24,7 +25,8 @@ vars == <<c, out, bad>>
 
 Prefix(domain) == CASE domain = "a.example" -> "a" [] domain = "b.example" -> "b" [] OTHER -> "root"
 
-HostDomain(h) == IF h = "mapped" THEN "a.example" ELSE "www.example"
+(* the Host header: names a configured domain / names none / is empty / is absent (HTTP/1.0) *)
+HostDomain(h) == CASE h = "mapped" -> "a.example" [] h = "unmapped" -> "www.example" [] OTHER -> ""
 
 (* first list element, stripped, lower-cased; "" when absent or empty *)
 Forwarded(x) == CASE x \in {"mapped", "list"} -> "b.example" [] x = "unmapped" -> "zzz.example" [] OTHER -> ""
@@ -38,7 +40,8 @@ Consulted(t, r, pre, post) ==
 Case(t, r, pre, post, x, h) ==
   /\ c = <<>>
   /\ c' = <<t, r, pre, post, x, h>>
-  /\ LET fw     == IF Consulted(t, r, pre, post) THEN Forwarded(x) ELSE ""
+  /\ LET fw     == IF Consulted(t, r, pre, post) \/ (Variant = "nohostfallback" /\ HostDomain(h) = "")
+                   THEN Forwarded(x) ELSE ""
          domain == IF fw # "" THEN fw ELSE HostDomain(h)
          path   == Prefix(domain)
          base   == Prefix(HostDomain(h))
